@@ -341,7 +341,7 @@ mod verif_c16 {
         let _ = a.anchor_point(kani::any());
         kani::cover!(true);
     }
-    //@harness prop=C16 kind=contract tier=quick class=P
+    //@harness prop=C16,C08 kind=contract tier=quick class=P
     #[kani::proof_for_contract(Rectangle::envelope)]
     #[kani::stub_verified(Rectangle::anchor_point)]
     #[kani::stub_verified(Rectangle::with_corners)]
@@ -394,7 +394,7 @@ mod verif_c16 {
         assert!(resize_y_post(&a, &r, h, ay) && r.top_left.x == a.top_left.x && r.size.width == a.size.width);
         kani::cover!(true);
     }
-    //@harness prop=C16 kind=contract tier=quick class=P
+    //@harness prop=C16,C08 kind=contract tier=quick class=P
     #[kani::proof_for_contract(Rectangle::offset)]
     #[kani::stub_verified(Rectangle::center)]
     #[kani::stub_verified(Rectangle::with_center)]
@@ -455,7 +455,7 @@ mod verif_c16 {
     }
 
     /// Same statement on the real bodies of everything intersection() calls (no stubs).
-    //@harness prop=C16 kind=lemma tier=quick class=P
+    //@harness prop=C16,C08 kind=lemma tier=quick class=P
     #[kani::proof]
     fn c16_lemma_intersection_real_bodies() {
         let a: Rectangle = kani::any();
@@ -535,7 +535,7 @@ mod verif_c16 {
     }
 
     /// rows()/columns() are the projections of contains(); bottom_right / anchor points agree.
-    //@harness prop=C16 kind=lemma tier=quick class=P
+    //@harness prop=C16,C08 kind=lemma tier=quick class=P
     #[kani::proof]
     fn c16_lemma_rows_columns_projections() {
         let a: Rectangle = kani::any();
